@@ -41,12 +41,21 @@ def crate_features(crate):
     return feats, default
 
 
+BUILD_ALL_TARGETS = False  # set for the thorough tier: examples and tests are code-generated and linked too
+
+
 def run_cell(crate, feats, target_dir):
     """A cell is checked twice: the library target alone (what a downstream consumer builds - with
     --all-targets the crate's own dev-dependencies are unified into the feature set and can mask a
     failure), and with --all-targets (examples, tests)."""
-    for extra in ([], ["--all-targets"]):
-        cmd = ["cargo", "check", "--offline", "-q", "-p", crate, "--no-default-features"] + extra
+    # the library cell is a real `cargo build`: `cargo check` stops before code generation and never reports what only
+    # shows there (deny-by-default lints of the known-panics pass such as arithmetic_overflow / unconditional_panic in
+    # non-generic bodies, post-monomorphization and const-evaluation errors)
+    import zlib
+    # thorough: every eighth cell (by a hash of the cell) additionally builds and links its examples and tests
+    deep = BUILD_ALL_TARGETS and zlib.crc32((crate + "|" + ",".join(feats)).encode()) % 8 == 0
+    for sub, extra in (("build", []), ("check", ["--all-targets"])) + ((("build", ["--all-targets"]),) if deep else ()):
+        cmd = ["cargo", sub, "--offline", "-q", "-p", crate, "--no-default-features"] + extra
         if feats:
             cmd += ["--features", ",".join(feats)]
         env = dict(os.environ, CARGO_NET_OFFLINE="true", CARGO_TARGET_DIR=target_dir, RUSTFLAGS=os.environ.get("RUSTFLAGS", ""))
@@ -85,6 +94,8 @@ def main():
         print(__doc__)
         return 2
     tier = sys.argv[2]
+    global BUILD_ALL_TARGETS
+    BUILD_ALL_TARGETS = tier == "thorough"
     seed = int(os.environ.get("VERIF_SEED", "0") or 0)
     os.makedirs(WORK, exist_ok=True)
     os.makedirs(os.path.join(ROOT, "evidence"), exist_ok=True)
@@ -218,14 +229,14 @@ def main():
         "coverage": {
             "evaluations": len(results),
             "distinct_nontrivial": distinct_nontrivial,
-            "rule": "cells of the feature power-set (named features + optional dependencies read from each crate's Cargo.toml, verif-hooks excluded), plus cross-crate cells in which features of a dependency crate are enabled next to the dependent crate's own (nexrad-decode with nexrad-model x every non-empty nexrad-model feature set; nexrad-data default/all - thorough: 24 more sampled sets - x nexrad-model and nexrad-decode feature sets; the facade x nexrad-model feature sets); thorough = every cell of every crate, quick = every cell of crates with <= 4 features and, for nexrad-data, {none, all, default, each single, each all-but-one} plus 40 seeded random cells; each cell = cargo check --offline -p <crate> --no-default-features --features <set>, once for the library alone and once with --all-targets; non-trivial = a cell that differs from both the empty and the default set",
+            "rule": "cells of the feature power-set (named features + optional dependencies read from each crate's Cargo.toml, verif-hooks excluded), plus cross-crate cells in which features of a dependency crate are enabled next to the dependent crate's own (nexrad-decode with nexrad-model x every non-empty nexrad-model feature set; nexrad-data default/all - thorough: 24 more sampled sets - x nexrad-model and nexrad-decode feature sets; the facade x nexrad-model feature sets); thorough = every cell of every crate, quick = every cell of crates with <= 4 features and, for nexrad-data, {none, all, default, each single, each all-but-one} plus 40 seeded random cells; each cell = `cargo build --offline -p <crate> --no-default-features --features <set>` for the library alone (code generation included: cargo check never reports known-panics lints, post-monomorphization and const-evaluation errors) and `cargo check ... --all-targets` for examples and tests (thorough: `cargo build --all-targets` as well for every eighth cell); non-trivial = a cell that differs from both the empty and the default set",
             "samples": [{"crate": c, "features": f, "result": s} for c, f, s, e in results[:3]] + [{"crate": c, "features": f, "result": s} for c, f, s, e in results[-2:]],
             "exhaustive": exhaustive,
             "feature_space": space,
             "cells_per_crate": classes,
             "failing_cells": len(failures),
             "inconclusive_cells": len(infra),
-            "trusted_base": ["rustc/cargo as the oracle (exit status of cargo check)"],
+            "trusted_base": ["rustc/cargo as the oracle (exit status of cargo build / cargo check)"],
         },
         "assumptions": ["warnings are not failures", "examples whose required-features are not enabled are skipped by cargo itself", "the verif-hooks feature is ours and is not part of the matrix"],
         "wall_s": round(time.time() - t0, 3),
